@@ -109,6 +109,7 @@ type Thread struct {
 	status    int
 	panicking bool
 	panicVal  Value
+	unwindAt  int // index of the frame whose deferred call is running during a panic (-1: none)
 	committed bool // the pending visible operation was already chosen by the scheduler
 	symBr     int  // number of symbolic decisions taken by this thread
 	name      string
